@@ -55,6 +55,9 @@ add("C19", "tree_utils traced to jaxprs with symbolic leaves and symbolic index 
 add("C17", "Rubik moves pushed through the real move functions on symbolic stickers: permutation extraction (all colourings at once) vs an independent geometric model, group identities on the permutations, SMT queries for flat/unflat encodings, is_solved and sliding-tile moves.",
     "jaxpr->SMT symbolic execution (z3) with permutation extraction + SMT queries; replay on real code", "DESIGN.md 3/C17")
 
+add("C10", "Real generators executed symbolically with contract stubs for jax.random: Inv(reset) well-formedness for every harness env, maze connectivity by an in-formula reachability fixed point with unwinding assertions, scramble/random-walk generators by loop-body induction, mines/blocks post-conditions, existential key-dependence; shipped data enumerated.",
+    "jaxpr->SMT symbolic execution (z3) of reset/generators with random stubs, unwinding assertions, loop-body induction; replay by real-key search", "DESIGN.md 3/C10")
+
 ALL = [f"C{i:02d}" for i in range(1, 20)]
 PENDING = "check under construction in this round; not claimed yet"
 
